@@ -24,6 +24,9 @@ CLAIMED["C09"] = ("4/C09", "The real listener (flush) and 1-3 real send coroutin
 CLAIMED["C12"] = ("4/C12", "The real Gateway.send and outgoing handlers are executed for every command with symbolic node/child/ack/type/payload, symbolic buffering flag and destination unknown/awake/sleeping; each path must end in exactly one of: the exact encoded line written, held and written at the destination's next wake (the wake is then fed to listen), or a library error; non-message objects must be rejected as InvalidMessageError. Path tree exhausted; bounded model checking.")
 CLAIMED["C13"] = ("4/C13", "Registries reached through symbolic histories of received lines on a real gateway, and directly constructed registries with symbolic field values (types in [-2^40,2^40], battery in [0,100], symbolic strings), are saved by the real Persistence.save and loaded by the real Persistence.load into an empty registry over an in-memory file system; values stay symbolic through a structure-preserving json fake, so schema-level accept/reject (e.g. the battery range) is decided by z3 for all values; every path's witness is re-run through the real json on real JSON text; legacy layout == native layout; awkward strings through the real json. Path tree exhausted; bounded model checking.")
 CLAIMED["C14"] = ("4/C14", "The real Persistence.load runs on documents in which one JSON value at each of 21 nesting positions (native and legacy layout) is replaced by null / true / a symbolic integer / a symbolic or class-list string / [] / {} / [1] / {'a':1}, a field is dropped or an unknown field added, on every prefix of three valid files (cut position symbolic), on undecodable bytes, missing file, empty file and injected OSError; every path must end in success or PersistenceReadError; missing file => created with the current registry; empty => empty registry. Path tree exhausted; bounded model checking.")
+CLAIMED["C15"] = ("4/C15", "The real Persistence.save runs on an in-memory file system with crash semantics; the crash index over the operations save actually issues and the surviving prefix length of unflushed data are symbolic; the real Persistence.load then runs on every post-crash disk and must yield the old or the new registry, for all 16 ordered pairs of a 4-registry family. Path tree exhausted. The pinned tree violates the property at one call site (truncate in place): recorded as three known findings keyed by crash position and outcome; any other post-crash outcome is still a violation.")
+CLAIMED["C16"] = ("4/C16", "The real Gateway.__aenter__/__aexit__, Persistence.start/stop/save_on_schedule and the built-in transports' connect/disconnect run on a real asyncio event loop in virtual time over an in-memory file system whose every operation is a suspension point; the exit moment (0..12 loop turns), body-raises, connect-fault and disconnect-fault bits and the transport kind are inputs explored exhaustively; assertions: only the body/library exception propagates (never CancelledError), transport down, file == registry at exit, no task left, and >= 1 + floor(D/900) saves after D virtual seconds.")
+CLAIMED["C17"] = ("4/C17", "The real StreamTransport/TCPTransport/SerialTransport run over a real asyncio.StreamReader on a real event loop with a feeder task: every byte stream over an 8-byte alphabet up to length 3(4), every cut into 2(3) chunks, with and without EOF, is compared with the reference (lines of the stream in order, decoded; errors as TransportReadError); writes with fault bits on write/drain/close; connect fault; use before connect. The grid is enumerated by the solver (realised dimension, stated as such).")
 PENDING = {
 }
 
